@@ -794,15 +794,50 @@ def impl_setup():
     gc.freeze()  # keeps gc.collect() in the settle step cheap
 
 
+class _Hang(BaseException):
+    pass
+
+
+_HANGS = [0]
+
+
+def _with_watchdog(fn, seconds=25):
+    """run fn(); a case that does not terminate becomes an observation instead of blocking the check
+    (after two hangs the remaining cases of the run are reported as hanging without being run)"""
+    import signal
+
+    if _HANGS[0] >= 2:
+        return None
+
+    def on_alarm(sig, frm):
+        signal.setitimer(signal.ITIMER_REAL, 5)  # once more, should the clean-up of the loop hang too
+        raise _Hang()
+
+    old = signal.signal(signal.SIGALRM, on_alarm)
+    signal.setitimer(signal.ITIMER_REAL, seconds)
+    try:
+        return fn()
+    except _Hang:
+        _HANGS[0] += 1
+        return None
+    finally:
+        signal.setitimer(signal.ITIMER_REAL, 0)
+        signal.signal(signal.SIGALRM, old)
+
+
 def impl(c):
     import asyncio
 
     if _is_x(c):
-        return _impl_extra(c)
+        r = _with_watchdog(lambda: _impl_extra(c), 90)
+        return r if r is not None else [[99], [98], [0, 0, 0], [[-1, 0, "the program did not terminate (hang)"]]]
     api, ps, mo, blocks, cs = c["in"]
     if api == 0:
         return [_run_sync_blocks(ps, mo, blocks), None, None]
-    obs, extra = asyncio.run(_run_async_blocks(ps, mo, blocks, cs))
+    r = _with_watchdog(lambda: asyncio.run(_run_async_blocks(ps, mo, blocks, cs)))
+    if r is None:
+        return [[99], None, {"hang": 1}]
+    obs, extra = r
     other = None
     if c.get("also_sync"):
         other = _run_sync_blocks(ps, mo, blocks)
@@ -810,6 +845,8 @@ def impl(c):
 
 
 def model_pair(c, obs):
+    if obs[0] == [99]:
+        return c["in"], [99]
     if obs[0][8] or (obs[2] and obs[2].get("term_cancel")):
         return c["in"], [77]  # pool-wide invalidation / cancelled inside terminate(): outside the model
     return c["in"], obs[0]
@@ -860,6 +897,8 @@ def _oracle(c, obs):
     if _is_x(c):
         return _oracle_extra(c, obs)
     main, other, extra = obs
+    if extra and extra.get("hang"):
+        return "async: the program did not terminate within 25 s (a task or the event loop hangs)"
     api, ps, mo, blocks, cs = c["in"]
     if other is not None:
         # same results, same SQL seen by the database, same final contents, same pool state
@@ -1355,6 +1394,8 @@ def _impl_extra(c):
 
 def _oracle_extra(c, obs):
     sync_res, async_res, _counts, viols = obs
+    if sync_res == [99]:
+        return viols[0][2]
     names = ["outcome", "results", "SQL statements", "rows of t", "rows of u", "checkedout"]
     for nm, a, b in zip(names, sync_res, async_res):
         if a != b:
